@@ -3,6 +3,8 @@ import itertools
 from .. import core
 from ..core import sh_hex
 
+PROOF_MODULES = ['Resynth.Props.C09', 'Resynth.Props.C09Eof']
+
 RULE = ("token-kind sequences over the 17 parser-visible kinds with representative texts: exhaustive up to length 3 (quick) / "
         "5 (thorough) after the statement starters, sampled beyond; grammar-directed sentences (nested calls, named/"
         "trailing-comma args, module paths, member refs, socket literals, right-nested '/') and their mutations "
@@ -43,7 +45,7 @@ def check(c, tokens, tag, r=None):
         toks = []
         for seg in lx.split(' | '):
             parts = seg.split(' ')
-            if parts[0] != 'ok': continue
+            if parts[0] not in ('ok', 'fin'): continue    # 'fin': the literal Lexer::finish hands over at end of input
             toks += [p for p in parts[1:] if ':' in p and not p.startswith('end=')]
         sp = c.model.ask('oracle parse ' + ' '.join(toks)) if toks else c.model.ask('oracle parse')
         # compare impl with spec: accept/reject, index, trees
